@@ -587,3 +587,8 @@ Proof.
     - unfold res_dec. destruct (c_max_retries c =? 0); cbn; auto. }
   destruct (clean_up src c s) as [s1 o1]. cbn [fst] in Hc. destruct Hc as [Hc1 Hc2]. unfold ite. rewrite Hc1. cbn. auto.
 Qed.
+
+(* ---------- the pooled filter-chain object ---------- *)
+Theorem next_request_fresh : forall src, put_resets_cursor src = true ->
+  forall prev rc0, rcursor (next_request src prev rc0) = 0%nat /\ scursor (next_request src prev rc0) = 0%nat.
+Proof. intros src H prev rc0. unfold next_request. rewrite H. split; reflexivity. Qed.
